@@ -82,6 +82,9 @@ def configs(tier):
         for weights in (True, False):
             out.append(dict(entry='nonMarkov_directed_percolate_network_with_timing', family='perc', graph=g, weights=weights, tags=['perc', g]))
         out.append(dict(entry='nonMarkov_directed_percolate_network_with_timing', family='perc', graph=g, weights=True, fxn_args=True, tags=['perc', g, 'fxn-args']))
+        for weights in (True, False):
+            out.append(dict(entry='nonMarkov_directed_percolate_network_with_timing', family='perc', graph=g, weights=weights, count_calls=True,
+                            tags=['perc', g, 'stateful-duration-rule']))
         out.append(dict(entry='directed_percolate_network', family='dperc', graph=g, tags=['dperc', g]))
         for zero in ('tau', 'gamma'):
             out.append(dict(entry='directed_percolate_network', family='dperc', graph=g, zero=zero, tags=['dperc', g, 'zero:' + zero]))
@@ -304,6 +307,17 @@ def run_perc(h, cfg):
     dur, dl = table(r, dict(cfg, ties=True))
     E = r.EoN
     tf, rf, extra = (lambda u, v: dl[(u, v)]), (lambda u: dur[u]), {}
+    dur_calls = []
+    if cfg.get('count_calls'):
+        # a random or stateful duration rule gives another value on every call: each node's duration is drawn ONCE and every
+        # out-edge of the node is judged against that one value
+        eng = symx.ENG
+
+        def rf(u):
+            dur_calls.append(u)
+            if dur_calls.count(u) == 1:
+                return dur[u]
+            return eng.var('D_again_%s' % (u,), lo=0)
     if cfg.get('fxn_args'):
         tf = simruns.expecting(tf, 2, simruns.TRANS_ARGS, 'trans_time_fxn')
         rf = simruns.expecting(rf, 1, simruns.REC_ARGS, 'rec_time_fxn')
@@ -311,6 +325,14 @@ def run_perc(h, cfg):
     H = h.call_must_succeed('no-exception', E.nonMarkov_directed_percolate_network_with_timing, r.G, tf, rf, weights=cfg['weights'], **extra)
     if H is None:
         return None
+    if cfg.get('count_calls'):
+        from collections import Counter as _C
+        c = _C(dur_calls)
+        if all(c.get(u, 0) == 1 for u in r.G.nodes()) and len(c) == r.N:
+            h.require('one-duration-per-node', True)
+        else:
+            h.fail('one-duration-per-node', {'rec_time_fxn_calls_per_node': {str(k): v for k, v in c.items()}})
+            return None
     perc_obligations(h, r, H, dur, dl, cfg['weights'])
     return {'edges': sorted([str(e) for e in H.edges()])}
 
